@@ -133,8 +133,8 @@ def judge_layer_rule_eval(obj, ev) -> None:
 
 def _rule_automaton(obj, upto=None):
     a = A.RuleAutomaton()
-    for name, _args, _res in _ok_entries(obj, upto):
-        a.feed(name)
+    for name, args, _res in _ok_entries(obj, upto):
+        a.feed(name, args)
     return a
 
 
